@@ -17,12 +17,23 @@ struct RecordingAllocator : public PageAllocator {
   std::vector<void*> order;          // allocation order
   std::map<void*, int> index;        // page -> allocation index
   std::map<void*, int> freed;        // page -> times deallocated
+  // slab mode: pages are carved from one arena, adjacent in memory in ascending address order (what a slab / pool
+  // allocator set through set_page_allocator hands out), so "the next page starts where this one ends" is exercised
+  bool slab {false};
+  char* arena {nullptr}; size_t arena_used {0};
+  static constexpr size_t ARENA = 4u << 20;
   size_t page_size() const noexcept override { return psize; }
   using PageAllocator::allocate;
   using PageAllocator::deallocate;
   void allocate(void** pages, size_t num) noexcept override {
     for (size_t i = 0; i < num; ++i) {
-      void* p = aligned_alloc(64, (psize + 63) / 64 * 64);
+      void* p;
+      if (slab && arena_used + psize <= ARENA) {
+        if (!arena) arena = (char*)aligned_alloc(64, ARENA);
+        p = arena + arena_used; arena_used += psize;
+      } else {
+        p = aligned_alloc(64, (psize + 63) / 64 * 64);
+      }
       memset(p, 0xEE, psize);
       index[p] = (int)order.size();
       order.push_back(p);
@@ -33,7 +44,8 @@ struct RecordingAllocator : public PageAllocator {
     for (size_t i = 0; i < num; ++i) freed[pages[i]]++;
   }
   void reset() {
-    for (auto p : order) free(p);
+    for (auto p : order) if (!(arena && (char*)p >= arena && (char*)p < arena + ARENA)) free(p);
+    arena_used = 0;
     order.clear(); index.clear(); freed.clear();
   }
 };
@@ -56,6 +68,7 @@ int main() {
     unsigned long p, n, cs;
     if (sscanf(line, "%lu %lu %lu", &p, &n, &cs) != 3) continue;
     alloc.psize = p;
+    alloc.slab = cs == 1 || (cs >= 2 && ((cs >> 1) & 1));
     rng_state = cs;
     std::string bytes(n, 0);
     for (size_t i = 0; i < n; ++i) bytes[i] = (char)((i * 7 + 3) % 251);
